@@ -116,6 +116,10 @@ fn polynomials_scaled(rng: &mut Rng) {
     let us = abscissae(rng, n);
     let umax = us.iter().fold(0.0f64, |a, b| a.max(b.abs()));
     let us: Vec<f64> = us.iter().map(|u| u / umax).collect();
+    // abscissae away from zero as well (a narrow window at x = 1.6, say): the data are a polynomial in the
+    // shifted variable, hence in x
+    let shift = *rng.pick(&[0.0, 0.0, 1.5, 4.0]);
+    let us: Vec<f64> = us.iter().map(|u| u + shift).collect();
     let xs: Vec<f64> = us.iter().map(|u| s * u).collect();
     let cu: Vec<f64> = (0..k).map(|_| rng.range(-3.0, 3.0)).collect();
     let noise = *rng.pick(&[0.0, 0.0, 1e-6, 0.3]);
@@ -140,11 +144,11 @@ fn polynomials_scaled(rng: &mut Rng) {
             if std::env::var("VH_C09_TRACE").is_ok() {
                 eprintln!("k={k} s={s:e} cond={cond:e} noise={noise:e} excess={excess:e}");
             }
-            // measured on the unchanged tree: <= 5e-15 below condition 1e3, <= 2e-9 up to 1e4 (the code solves
-            // the normal equations by inversion); a fit that loses a coefficient is at 1e-3 .. 1
-            // beyond condition 1e4 the inversion of the normal equations is itself inaccurate (5e-4 seen at 2.6e4):
-            // ill-conditioned designs are not judged
-            let allowed = if cond <= 1e3 { 1e-10 } else if cond <= 1e4 { 1e-5 } else { f64::INFINITY };
+            // measured on the repaired tree (normal equations solved by pivoted LU): <= 2e-13 up to condition 1e5 of the
+            // design matrix, <= 5e-11 up to 1e7 (the normal equations square the condition number);
+            // a fit that loses a coefficient is at 1e-3 .. 1.  (Before the repair b4 of the 4 x 4 closed-form inverse
+            // the excess reached 5e-4 at condition 2.6e4.)
+            let allowed = if cond <= 1e5 { 1e-10 } else if cond <= 1e7 { 1e-8 } else { f64::INFINITY };
             v.require(excess <= allowed, "poly.no_other_coefficients_have_smaller_sum_of_squares",
                 || format!("K={k} scale {s:e} (condition of the normalised design matrix {cond:e}): sum of squares {ss_fit:e}, the least-squares solution has {ss_ref:e} (sum of w*y^2 = {total:e}); fit {c:?}"));
         }
